@@ -320,11 +320,12 @@ def fun_set(f, key, val):
 
 class V:
     """A symbolic value: kind + flat list of z3 terms."""
-    __slots__ = ('kind', 'terms')
+    __slots__ = ('kind', 'terms', 'origin')
 
     def __init__(self, kind, terms):
         self.kind = kind
         self.terms = list(terms)
+        self.origin = None      # (heap key, field kind, owner ref) of a container read from an object and not copied
         assert len(self.terms) == kind.nleaves(), (kind, terms)
 
     def __repr__(self):
